@@ -106,6 +106,27 @@ _WHERE = {
             "tree, ast.literal_eval of _INLINE_TAG_NAMES, the library's == for the pass-through clause, CPython.",
             "TLA+ spec (Catalogue/CatalogueOps) enumerated exhaustively with TLC; every TLC-generated call replayed "
             "into the code; recorded results validated by TLC trace spec (CatTrace)"),
+    "C08": ("purity", "C08",
+            "TLC explores the system specification (heap of tags / child lists / attribute maps / metadata / tagifiable "
+            "objects; actions tagify, copy, read-only operations, public mutators through a chosen root) and checks "
+            "independence, non-interference, fixed point and that only mutators touch existing objects; every explored "
+            "history and seeded random histories (incl. HTMLDocument roots) are run on real objects with the whole "
+            "reachable object graph projected after every step, and TLC judges each step: structure unchanged for "
+            "read-only operations, no shared mutable object after tagify, repeatability, == against abstract equality.",
+            "Trusted: TLC/SANY, Struct/Shared/Expand/AbsEq in the spec, the harness's traversal that projects the object "
+            "graph (id()-based identity), CPython.",
+            "TLA+ system spec (HtmlTools/HeapOps) model-checked with TLC; TLC-generated histories replayed into the "
+            "code; recorded heap histories validated by TLC trace spec (HeapTrace)"),
+    "C09": ("purity", "C09",
+            "TLC checks on the system specification that tagify() of a heap equals the declarative expansion (TagList "
+            "results spliced in place, others substituted) for every explored history; for the same trees and seeded "
+            "random trees the real render()/HTMLDocument.render() output and dependency list are compared with those of "
+            "the tree in which each tagifiable is replaced by its expansion (TLC first checks that comparison tree "
+            "against Expand), and un-expanded objects must raise instead of emitting.",
+            "Trusted: TLC/SANY, Expand/Struct in spec/HeapOps.tla, the heap projection, string equality of two real "
+            "renderings, CPython.",
+            "TLA+ system spec (HtmlTools/HeapOps) model-checked with TLC; TLC-generated histories replayed into the "
+            "code; recorded heaps validated by TLC trace spec (HeapTrace)"),
 }
 
 NOT_YET = {}
